@@ -99,6 +99,8 @@ class IterUnit(Unit):
         ops = spec_iter.OPS
         if ctx.pid == 'C04':
             ops = [o for o in ops if o in ('next', 'next_back', 'iter', 'get', 'nth_back')]
+        if len(prog.enabled()) > 16:
+            ops = [o for o in ops if o != 'nth_back']      # std's default nth_back loops N + 1 times: not worth unwinding 260 iterations
         return [('twin_' + o, o) for o in ops]
     def twin_of(self, ctx, prog, fn):
         return TWIN.get(op_of(fn))
